@@ -163,3 +163,46 @@ Fixpoint dns_decode_f (fuel : nat) (b : list Z) : res (list Z) :=
 (* DNSTransform.Read: every byte must be consumed (decodePackets stops when i >= len(b); a
    packet cannot consume more than is there without an error or a panic above) *)
 Definition dns_decode (b : list Z) : res (list Z) := dns_decode_f (S (length b)) b.
+
+(* ---- what DNSTransform.Read has handed to its writer when it returns, error or not: decodePacket
+        writes every record as it walks the stream, so a stream that fails part-way leaves the records
+        decoded so far in the output ------------------------------------------------------------- *)
+Fixpoint dns_additional_out (t : nat) (lenb : Z) (s : Z) (rem : list Z) (acc : list Z) : list Z :=
+  match t with
+  | O => acc
+  | S t' =>
+    if lenb <=? s + 6 then acc
+    else if negb (list_eqb Z.eqb (take 6 rem) seg_magic) then acc
+    else let rem1 := drop 10 rem in
+         if lenb <=? s + 10 + 1 then acc
+         else match rd16 rem1 with
+              | Ok i =>
+                let rem2 := drop 2 rem1 in
+                if lenb <? s + 12 + i then acc
+                else dns_additional_out t' lenb (s + 12 + i) (drop i rem2) (acc ++ take i rem2)
+              | _ => acc
+              end
+  end.
+
+Definition dns_packet_out (b : list Z) : list Z :=
+  let lenb := len b in
+  if lenb <? 12 then []
+  else match (do q <- rd16 (drop 4 b); do c <- rd16 (drop 6 b); do t <- rd16 (drop 10 b);
+              do '(s1, rem1) <- dns_questions (Z.to_nat q) lenb 12 (drop 12 b);
+              do '(s2, rem2) <- dns_answers (Z.to_nat c) lenb s1 rem1;
+              Ok (t, s2, rem2)) with
+       | Ok (t, s2, rem2) => dns_additional_out (Z.to_nat t) lenb s2 rem2 []
+       | _ => []
+       end.
+
+Fixpoint dns_out_f (fuel : nat) (b : list Z) : list Z :=
+  match fuel with
+  | O => []
+  | S f =>
+    if is_nil b then []
+    else match dns_decode_packet b with
+         | Ok (d, n) => d ++ dns_out_f f (drop n b)
+         | _ => dns_packet_out b
+         end
+  end.
+Definition dns_out (b : list Z) : list Z := dns_out_f (S (length b)) b.
